@@ -108,10 +108,15 @@ def fnvModel : List String → String
   | _ => "bad-case"
 
 /-
-  c05.retry  kind robin keyhex hosts maxConns maxFails tryDuration interval failTimeout bodyLen framing
+  c05.retry  kind robin keyhex hosts maxConns maxFails tryDuration interval failTimeout bodyLen framing events
      framing = cl (Content-Length = bodyLen; 0 = http.NoBody) | chunked (ContentLength -1, non-nil Body) | nil (Body nil)
-     hosts = comma list of  u/c/script  (u: 1 unhealthy; base conns; script letters K ok, H = F followed by a passing health check of every backend before the next Select, F fail before
+     hosts = comma list of  u/c/script[/f]  (the state of the backend when the request arrives: u 1 = unhealthy; c = conns of
+             other requests; f = failures already on record, not expiring while the request is served (default 0);
+             script letters K ok, H = F followed by a passing health check of every backend before the next Select, F fail before
              reading the body, R fail after reading it, C client cancelled, T body too large)
+     events = - or comma list of  a>j=u/c/f : when attempt number a of the request (0-based, over all backends) starts,
+             backend j gets health flag u, c conns of other requests, f failures on record (comes back / goes away)
+             (the field may be missing = -)
      durations in milliseconds = ticks
      out   = <result> TAB <attempts: host:body,...>   result = ok|502|499|413
 -/
@@ -129,21 +134,46 @@ open Casket.Retry in
 def parseRetryHost (s : String) : Option HostCfg :=
   match s.splitOn "/" with
   | [u, c, sc] => do
-    pure { unhealthy := u != "0", conns := ← c.toNat?, script := ← sc.toList.mapM parseOutcome }
+    pure { unhealthy := u != "0", conns := ← c.toNat?, script := ← sc.toList.mapM parseOutcome, fails := 0 }
+  | [u, c, sc, f] => do
+    pure { unhealthy := u != "0", conns := ← c.toNat?, script := ← sc.toList.mapM parseOutcome, fails := ← f.toNat? }
   | _ => none
 
 open Casket.Retry in
-def parseRetry : List String → Option (Cfg × Nat)
-  | [k, robin, key, hosts, mc, mf, d, i, f, blen, framing] => do
+def parseRetryEvent (s : String) : Option Event :=
+  match s.splitOn ">" with
+  | [a, rest] =>
+    match rest.splitOn "=" with
+    | [j, st] =>
+      match st.splitOn "/" with
+      | [u, c, f] => do
+        pure { attempt := ← a.toNat?, host := ← j.toNat?,
+               state := { unhealthy := u != "0", conns := ← c.toNat?, fails := ← f.toNat? } }
+      | _ => none
+    | _ => none
+  | _ => none
+
+open Casket.Retry in
+def parseRetryEvents (s : String) : Option (List Event) :=
+  if s = "-" || s = "" then some [] else (s.splitOn ",").mapM parseRetryEvent
+
+open Casket.Retry in
+def parseRetry12 : List String → Option (Cfg × Nat)
+  | [k, robin, key, hosts, mc, mf, d, i, f, blen, framing, events] => do
     let hs ← (hosts.splitOn ",").mapM parseRetryHost
     let c : Cfg := { kind := ← parseKind k, hash := fnv32a (← Driver.unhex key), rands := fun _ => [],
                      tryDuration := ← d.toNat?, interval := ← i.toNat?, failTimeout := ← f.toNat?,
                      maxFails := ← mf.toNat?, maxConns := ← mc.toNat?, hosts := hs,
                      -- the outgoing request has a Body: unknown length (chunked upload, even when it turns out
                      -- empty) or a declared Content-Length > 0; Content-Length 0 means Body = nil
-                     hasBody := framing == "chunked" || (framing == "cl" && (← blen.toNat?) != 0) }
+                     hasBody := framing == "chunked" || (framing == "cl" && (← blen.toNat?) != 0),
+                     events := ← parseRetryEvents events }
     pure (c, ← robin.toNat?)
   | _ => none
+
+open Casket.Retry in
+def parseRetry (f : List String) : Option (Cfg × Nat) :=
+  if f.length = 11 then parseRetry12 (f ++ ["-"]) else parseRetry12 f
 
 open Casket.Retry in
 def showResult : Result → String
